@@ -240,6 +240,8 @@ const TOKENS: &[&str] = &[
     "\u{80}", "\u{7ff}", "\u{800}", "\u{fff}", "\u{d7ff}", "\u{e000}", "\u{f000}", "\u{feff}", "\u{ffff}", "\u{10000}", "\u{3ffff}", "\u{10ffff}",
     "127", "128", "-0", "0255", "00000256", "-00128", "000000000000000000000000000000000000000001",
     "à", "\u{a0}", "Å", "É", "Ê", "\u{8d}", "😅", "\u{2028}", "\u{85}", "ᄀ", "\u{ac}",
+    // look-alikes of é € 😀: same leading bytes, different last byte (partial matches defeated on a continuation byte)
+    "ê", "\u{20ad}", "\u{1f601}", "\u{2200}",
 ];
 
 const FIXED_PATS: &[&str] = &[
